@@ -156,6 +156,9 @@ def rule_loop_guards(ck):
     ck.ob("loop.unwind_guards", "unwind/depth-bound", ok, f"bounds found: {[c for _, c in depth_blocks]}", f.loc(h))
     for b, c in depth_blocks:
         ck.ob("loop.unwind_guards", "unwind/depth-bound-finite", 0 < c <= 65536, f"bound {c}", f.loc(b))
+        # the property quantifies over call depths "up to hundreds": a cap below 1000 frames truncates backtraces the
+        # property covers (the outer activations and main are missing and cannot be selected)
+        ck.ob("loop.unwind_guards", "unwind/depth-bound-above-hundreds-of-frames", c >= 1000, f"bound {c}", f.loc(b), what="the unwinder's depth cap cuts the backtrace of a call chain a few hundred frames deep")
     ins = [c for c in f.calls() if re.search(r"HashSet::<T, S(, A)?>::insert$", c.name) and c.bb in loop]
     ok2 = False
     for c in ins:
